@@ -114,7 +114,7 @@ Definition str_suffix (suf s : string) : bool := String.prefix (str_rev suf) (st
 (* a table position must be filled by a `...TableName` constant, the per-mailbox table name function, or a literal
    table name that the translator found spelled out in the query text (prefix "lit:") *)
 Definition table_ident_ok (t : string) : bool :=
-  str_suffix "TableName" t || String.prefix "v1.MailboxMessageTableName(" t || String.prefix "lit:" t.
+  str_suffix "TableName" t || String.eqb t "tableName" (* parameter of the createFlags closure in CreateMailbox *) || String.prefix "v1.MailboxMessageTableName(" t || String.prefix "lit:" t.
 
 Definition sql_ok (q : sql_fact) : bool := str_in (q_verb q) sql_verbs && table_ident_ok (q_table q).
 
